@@ -73,6 +73,23 @@ def make_universe():
         finally:
             I.env = saved
         return I.call_spec(I.cset.specs['push_rev'], [stack, a, b, L], {})
+    def flatchoice_init(I, args, kwargs):
+        """FlatChoice.__init__(when_broken, when_flat, normalize_on_access=False): both cache flags start False"""
+        vals = list(args)
+        names = ['when_broken', 'when_flat', 'normalize_on_access']
+        for n in names[len(vals):]:
+            vals.append(kwargs.get(n, False))
+        return vals + [False, False]
+    U.class_init = {'FlatChoice': flatchoice_init}
+
+    def fc_setattr(field):
+        def hook(I, base, value):
+            ct, rec, accs, names = U.ctors[('Obj', 'FlatChoice')]
+            fsorts = [sname for cn, fl in U.decl_spec['Obj'][1] if cn == 'FlatChoice' for _, sname in fl]
+            vals = [I.coerce(value, fsorts[j]) if names[j] == field else z3.simplify(accs[j](base)) for j in range(len(names))]
+            return ct(*vals)
+        return hook
+    U.setattr_hooks = {('Obj', f): fc_setattr(f) for f in ('_when_broken', '_when_flat', '_broken_normalized', '_flat_normalized')}
     U.extend_reversed_idiom = extend_reversed
 
     def extend_forward(I, sn, stack, gen, L):
